@@ -248,7 +248,7 @@ def rule_r2(ctx):
             ctx.r.violation(rid, key_of(f, None, "header-limit-comparison"), "header limit test %s refuses on %s; the property requires refusal when the head *reaches* the limit"
                             % (norm(t), [k for k, v in refuse.items() if v]), f.loc(b.ast))
         # the refusing branch
-        other = [x for x in g.nodes if x.kind == "branch" and x.ast is t and x.polarity != pol]
+        other = [x for x in g.nodes if x.kind == "branch" and x.ast is getattr(t, "_guard_of", t) and x.polarity != pol]
         if other:
             ob = other[0]
             errs = [e for e in _error_store_nodes(g) if g.dominates(ob, e)]
